@@ -4,6 +4,7 @@ package algo
 
 func init() {
 	verifRegister("VerifC41TreeStep", VerifC41TreeStep)
+	verifRegister("VerifC41TreeDeleteStep", VerifC41TreeDeleteStep)
 	verifRegister("VerifC41TreeHistory", VerifC41TreeHistory)
 	verifRegister("VerifC41CircStep", VerifC41CircStep)
 	verifRegister("VerifC41CircHistory", VerifC41CircHistory)
@@ -193,6 +194,28 @@ func VerifC41TreeStep() {
 		verifAssert(na == 0, "delete-allocates-nothing")
 		verifAssert((nd == 1) == removed && nd <= 1, "frees-exactly-the-removed-node")
 	}
+	verifTreeAgainstModel(&t, kvs, probe)
+}
+
+// VerifC41TreeDeleteStep: one Delete from an ARBITRARY valid AVL tree of height exactly HD (deletions are what leaves a node
+// with balance +-2 whose heavier child is itself balanced - the rotation case insertions never produce - and that needs height 4)
+func VerifC41TreeDeleteStep() {
+	h := verifParam("HD", 4)
+	var prev int32
+	var have bool
+	var kvs []verifKV
+	root := verifBuildAVL(h, &prev, &have, &kvs)
+	var na, nd int
+	var last *verifNode
+	t := NewTreeMap[int32, int32, verifCmp](verifAlloc{&na, &nd, &last})
+	t.root = root
+	k, probe := verifI32(), verifI32()
+	verifCover("delete")
+	t.Delete(k)
+	var removed bool
+	kvs, removed = verifModelDelete(kvs, k)
+	verifAssert(na == 0, "delete-allocates-nothing")
+	verifAssert((nd == 1) == removed && nd <= 1, "frees-exactly-the-removed-node")
 	verifTreeAgainstModel(&t, kvs, probe)
 }
 
